@@ -77,6 +77,8 @@ def attribute(run, line, verdict):
         return "C06+C01"          # a unit of a stacked scheduler's pool is lost / the stream is not joinable
     if scn in ("xjoin", "privjoin"):
         return "C06"
+    if scn == "rejoin":
+        return "C17+C06"          # the join request is lost when the joined stream replaces its main scheduler
     if scn == "cancelmix":
         return "C12+C03"          # cancellation while joining / being joined
     if scn == "cancelnew":
@@ -190,6 +192,8 @@ def run_exec(pid, tier, seed, emphasis, scns=("exec",), pre=None):
         if scn in ("ryt", "ytrace") and (cfg != 4 or nes < 2):
             return False
         if scn in ("replace", "privjoin") and (cfg or nes):
+            return False
+        if scn == "rejoin" and (nes != 1 or cfg == 4):
             return False
         return True
 
